@@ -34,6 +34,7 @@ DEVS = {
     "NoUnregister": {"InvNoSpuriousRefusal"}, "VecFpNotInvalidated": {"InvFpCoherent"},
     "SetAttrShare": {"WritesLocal"}, "SetAttrNoReregister": {"InvNoSpuriousRefusal"},
     "TableFpMemo": {"InvFpCoherent"}, "RaggedAccepted": {"InvRect"}, "CmapStale": {"InvLookupCurrent"}, "DirTames": {"InvLookupCurrent", "InvCmap"},
+    "ConcatShares": {"InvSharingJustified", "InvNoSpuriousRefusal"},
 }
 
 
